@@ -127,14 +127,15 @@ func parseHarnessFile(path, pkgDir string) ([]*Harness, error) {
 }
 
 type loaded struct {
-	prog     *ssa.Program
-	pkgs     map[string]*ssa.Package // by dir
-	skipped  map[string]string       // harness file -> error
-	rewrites    []string // environment rewrites applied (see genRewrites)
-	rewriteErrs []string
-	overlay  map[string]string       // virtual path -> real path
-	harness  []*Harness
-	loadTime time.Duration
+	prog         *ssa.Program
+	pkgs         map[string]*ssa.Package // by dir
+	skipped      map[string]string       // harness file -> error
+	rewrites     []string                // environment rewrites applied (see genRewrites)
+	rewriteErrs  []string
+	rewriteNotes []string
+	overlay      map[string]string // virtual path -> real path
+	harness      []*Harness
+	loadTime     time.Duration
 }
 
 func harnessFiles() map[string][]string {
@@ -168,9 +169,9 @@ func goEnv() []string {
 // overlay, for the symbolic run and for native replays alike. It is how environment calls
 // (file system, scheduling points) are turned into harness-provided stubs without touching /repo.
 type rewriteSpec struct {
-	File  string      `json:"file"`
-	Subst [][2]string `json:"subst"`
-	Why   string      `json:"why"`
+	File  string     `json:"file"`
+	Subst [][]string `json:"subst"` // [old, new] or [old, new, "optional"]
+	Why   string     `json:"why"`
 }
 
 func genRewrites(ld *loaded, pkgDir string) error {
@@ -192,7 +193,15 @@ func genRewrites(ld *loaded, pkgDir string) error {
 		}
 		text := string(src)
 		for _, su := range sp.Subst {
+			if len(su) < 2 {
+				continue
+			}
 			if !strings.Contains(text, su[0]) {
+				if len(su) > 2 && su[2] == "optional" {
+					// a scheduling point for native replay only: without it a replayed schedule is coarser there
+					ld.rewriteNotes = append(ld.rewriteNotes, fmt.Sprintf("%s: optional pattern %q does not occur in %s", pkgDir, su[0], sp.File))
+					continue
+				}
 				ld.rewriteErrs = append(ld.rewriteErrs, fmt.Sprintf("%s: pattern %q no longer occurs in %s", pkgDir, su[0], sp.File))
 				continue
 			}
